@@ -123,12 +123,21 @@ def run_tool(case, data, a, b, fa, fb):
 def original(case):
     from cardutil import mciipm
     if case['kind'] == 'ipm':
+        # the input file comes from elsewhere: it is laid out by the independent reference encoder, not by the library
+        # under test (whose own writer, if it went wrong, would hand the tools an input that is already damaged)
+        try:
+            pk = iu.packaged()
+            data = vbs_ref([iu.ref_wire(iu.dict_of_text(t), pk, case['a'], False) for t in case['msgs']])
+            return block_ref(data) if case['fa'] else data
+        except Exception:
+            pass
         f = io.BytesIO()
         with mciipm.IpmWriter(f, encoding=case['a'], blocked=case['fa']) as w:
             for t in case['msgs']:
                 w.write(iu.dict_of_text(t))
         return f.getvalue()
-    return mciipm.vbs_list_to_bytes([bytes.fromhex(r) for r in case['recs']], blocked=case['fa'])
+    data = vbs_ref([bytes.fromhex(r) for r in case['recs']])
+    return block_ref(data) if case['fa'] else data
 
 
 def decoded(data, codec, blocked, kind):
